@@ -308,7 +308,16 @@ def get_strategy_base():
                 other = self._decl['tp' if kind == 'sl' else 'sl']
                 if other is not None and rows == other:
                     continue   # identical SL and TP is a user error jesse rejects by design
-                if kind == 'sl':
+                cur = self.stop_loss if kind == 'sl' else self.take_profit
+                if self._prog.get('p_inplace', 0.0) > 0 and isinstance(cur, np.ndarray) and cur.ndim == 2 and len(cur) == len(rows) \
+                        and cur.shape[1] == 2 and self._uu(hook, f'{kind}_inplace', 1.0) < self._prog['p_inplace']:
+                    # edit the declaration the framework handed back (a numpy array by now) in place: a trailing stop
+                    # written as self.stop_loss[0][1] = price
+                    for i, (q, px) in enumerate(rows):
+                        cur[i][0] = q
+                        cur[i][1] = px
+                    self._c.count('declared_in_place')
+                elif kind == 'sl':
                     self.stop_loss = rows if len(rows) > 1 else rows[0]
                 else:
                     self.take_profit = rows if len(rows) > 1 else rows[0]
@@ -648,6 +657,7 @@ def gen_program(st, exchange_type, profile=None):
         'p_hook_market': st.choice([0.0, 0.0, 0.3], 'p_hook_market'),
         'p_sl_inside_ladder': st.choice([0.0, 0.3], 'p_sil'),
         'p_refine_on_open': st.choice([0.0, 0.5], 'p_roo'),
+        'p_inplace': st.choice([0.0, 0.0, 0.5], 'p_inplace'),
         'ohlc_entries': st.chance(0.3, 'ohlc'),
         'data_gate': st.chance(0.3, 'dgate'),
     }
